@@ -130,6 +130,11 @@ class _FreshInt(int):
     conciliation written with `is` instead of `==` shows (small ints are shared objects in CPython)"""
     __slots__ = ()
 
+    def __bool__(self):
+        # defaults with an even token are FALSY objects (like 0, '', (), False): a conciliation or a partial-bound default
+        # written with `x or y` / `if default:` instead of a comparison with the `empty` sentinel shows
+        return int(self) % 2 == 1
+
 
 def dflt_obj(tok):
     return None if tok == 0 else _FreshInt(tok)
